@@ -34,7 +34,7 @@ import (
 const (
 	equivBound     = 3
 	equivRecursion = 2
-	equivMaxPaths  = 6000
+	equivMaxPaths  = 1500
 	equivRunBudget = 20 * time.Second // symbolic execution of both versions
 	equivBudget    = 120 * time.Second // everything, per check run
 )
@@ -46,6 +46,8 @@ type equivResult struct {
 	Pairs   int    `json:"pairs"`
 	Queries int    `json:"queries"`
 	Ms      int64  `json:"ms"`
+	closures map[string]bool
+	funcs    map[*ssa.Function]bool
 }
 
 func (r *equivResult) carries() bool {
@@ -62,6 +64,8 @@ type equivChecker struct {
 	started     time.Time
 	fa          *frameAn
 	inprog      map[declKey]bool
+	current     declKey
+	bound       int
 }
 
 func newEquivChecker(verif, repo, outDir string) *equivChecker {
@@ -137,12 +141,23 @@ func (c *equivChecker) lookup(k declKey, prefix string) *ssa.Function {
 	if fn == nil || closure == "" {
 		return fn
 	}
-	for _, an := range fn.AnonFuncs {
-		if strings.HasSuffix(an.Name(), closure) {
-			return an
+	// closures are named f$1, f$1$2, ...: descend one level per "$n"
+	want := fn.Name()
+	for _, part := range strings.Split(strings.TrimPrefix(closure, "$"), "$") {
+		want += "$" + part
+		var next *ssa.Function
+		for _, an := range fn.AnonFuncs {
+			if an.Name() == want {
+				next = an
+				break
+			}
 		}
+		if next == nil {
+			return nil
+		}
+		fn = next
 	}
-	return nil
+	return fn
 }
 
 func (c *equivChecker) check(k declKey) *equivResult {
@@ -214,14 +229,55 @@ func (c *equivChecker) check1(k declKey) (res *equivResult) {
 			res = &equivResult{Status: "unavailable", Detail: fmt.Sprintf("internal: %v", rec)}
 		}
 	}()
-	r := c.compare(k, fnNew, fnBase, true)
-	if r.Status == "unavailable" && strings.HasPrefix(r.Detail, "engine:") {
-		// branches that cannot be merged into one symbolic state: explore them separately
-		r2 := c.compare(k, fnNew, fnBase, false)
-		if r2.Status != "unavailable" {
-			return r2
+	var r *equivResult
+	for bound := equivBound; bound >= 1; bound-- {
+		c.bound = bound
+		r = c.compare(k, fnNew, fnBase, true)
+		if r.Status == "unavailable" && strings.HasPrefix(r.Detail, "engine:") && !strings.Contains(r.Detail, "path limit") && !strings.Contains(r.Detail, "time budget") {
+			// branches that cannot be merged into one symbolic state: explore them separately
+			r2 := c.compare(k, fnNew, fnBase, false)
+			if r2.Status != "unavailable" {
+				return r2
+			}
+			r.Detail += "; explored separately: " + r2.Detail
 		}
-		r.Detail += "; explored separately: " + r2.Detail
+		// too many paths for this bound: nested data-dependent loops are compared to a smaller one
+		if !(r.Status == "unavailable" && (strings.Contains(r.Detail, "path limit") || strings.Contains(r.Detail, "time budget") || strings.Contains(r.Detail, "too many paths"))) {
+			break
+		}
+	}
+	if r.carries() {
+		for f := range r.funcs {
+			fk, ok := c.keyOfSSA(f)
+			if !ok {
+				return &equivResult{Status: "unavailable", Detail: "a changed function is used as a value: " + f.String()}
+			}
+			if fk == k || c.inprog[fk] {
+				continue
+			}
+			if rf := c.check(fk); !rf.carries() {
+				return &equivResult{Status: rf.Status, Detail: "function value " + fk.String() + ": " + rf.Detail, Pairs: r.Pairs, Queries: r.Queries}
+			}
+		}
+	}
+	if r.carries() && len(r.closures) > 0 && !strings.Contains(k.name, "$") {
+		// function values built from closures of the function: their bodies are part of what it returns / starts
+		var sfxs []string
+		for sfx := range r.closures {
+			sfxs = append(sfxs, sfx)
+		}
+		sort.Strings(sfxs)
+		for _, sfx := range sfxs {
+			kc := k
+			kc.name += sfx
+			rc := c.check(kc)
+			if !rc.carries() {
+				return &equivResult{Status: rc.Status, Detail: "closure " + kc.String() + ": " + rc.Detail, Pairs: r.Pairs, Queries: r.Queries}
+			}
+			if rc.Status == "bounded-equivalent" && r.Status == "equivalent" {
+				r.Status, r.Bound = "bounded-equivalent", rc.Bound
+			}
+		}
 	}
 	return r
 }
@@ -269,15 +325,19 @@ func (c *equivChecker) compare(k declKey, fnNew, fnBase *ssa.Function, merge boo
 	}
 	x.safety = false
 	x.splitGoals = true
-	x.maxPaths = 20000
+	x.maxPaths = 4000
 	x.opaque = map[string]bool{}
 	x.noModular = true
 	x.noIntMerge = true
-	x.boundK = equivBound
+	x.boundK = c.bound
 	x.boundRec = equivRecursion
 	x.baseRun = false
 	x.deadline = time.Now().Add(equivRunBudget)
 	x.eqAbstract = c.abstraction
+	c.current = k
+	if i := strings.Index(k.name, "$"); i >= 0 {
+		c.current.name = k.name[:i]
+	}
 	x.active = nil
 	defer func() { x.eqAbstract = nil; x.deadline = time.Time{}; x.noIntMerge = false; x.noModular = false; x.boundK = 0; x.boundRec = 0; x.baseRun = false }()
 
@@ -353,7 +413,7 @@ func (c *equivChecker) compare(k declKey, fnNew, fnBase *ssa.Function, merge boo
 	res = &equivResult{Status: "equivalent"}
 	if hitsA+hitsB > 0 {
 		res.Status = "bounded-equivalent"
-		res.Bound = equivBound
+		res.Bound = c.bound
 	}
 	base0 := len(st0.pc)
 	log0 := len(st0.log)
@@ -397,17 +457,38 @@ func (c *equivChecker) compare(k declKey, fnNew, fnBase *ssa.Function, merge boo
 						cs = append(cs, cmp.eq(a.vals[i], b.vals[i]))
 					}
 				}
-				// everything that existed at entry
-				var cells []*Cell
+				// everything both runs can see: what existed at entry, the object regions of the
+				// heap model (created on demand, shared by both runs) and any other cell known to
+				// both final states (a cell allocated by one run is unknown to the other)
+				shared := map[*Cell]bool{}
 				for cl := range entryCells {
+					shared[cl] = true
+				}
+				for _, rc := range x.regions {
+					shared[rc] = true
+				}
+				for cl := range a.st.store {
+					if _, ok := b.st.store[cl]; ok {
+						shared[cl] = true
+					}
+				}
+				var cells []*Cell
+				for cl := range shared {
 					cells = append(cells, cl)
 				}
 				sort.Slice(cells, func(i, j int) bool { return cells[i].id < cells[j].id })
+				val := func(st *State, cl *Cell) Value {
+					if v, ok := st.store[cl]; ok {
+						return v
+					}
+					return x.gstate.store[cl]
+				}
 				for _, cl := range cells {
-					va, vb := a.st.store[cl], b.st.store[cl]
+					va, vb := val(a.st, cl), val(b.st, cl)
 					if va == vb {
 						continue
 					}
+					cmp.entry[cl] = true
 					cs = append(cs, cmp.eq(va, vb))
 				}
 				// external events
@@ -429,6 +510,18 @@ func (c *equivChecker) compare(k declKey, fnNew, fnBase *ssa.Function, merge boo
 				}
 				goal = mkAnd(cs...)
 				why = strings.Join(cmp.why, "; ")
+				for f := range cmp.funcs {
+					if res.funcs == nil {
+						res.funcs = map[*ssa.Function]bool{}
+					}
+					res.funcs[f] = true
+				}
+				for sfx := range cmp.closures {
+					if res.closures == nil {
+						res.closures = map[string]bool{}
+					}
+					res.closures[sfx] = true
+				}
 			}
 			if goal.isTrue() {
 				continue
@@ -488,6 +581,8 @@ type eqCmp struct {
 	bad    string
 	why    []string
 	depth  int
+	closures map[string]bool // closures whose bodies must be compared as well (name suffixes "$n")
+	funcs    map[*ssa.Function]bool // changed named functions used as values
 }
 
 // fail: the two values cannot be shown equal structurally. The pair of paths is
@@ -546,20 +641,40 @@ func (c *eqCmp) eq(a, b Value) *Term {
 			return tFalse // distinct objects, at least one of which the caller knows
 		}
 		// two objects allocated by the two runs: compared by content
-		if !pathEq(va.path, vb.path) || va.sym != nil || vb.sym != nil {
-			return c.fail("pointers into fresh objects at different offsets")
+		if (va.sym == nil) != (vb.sym == nil) || va.mayNil != vb.mayNil {
+			return c.fail("pointers of different kinds into fresh objects (%s / %s)", valueString(va), valueString(vb))
 		}
-		key := [2]*Cell{va.cell, vb.cell}
-		if c.seen[key] {
-			return tTrue
+		var symEq *Term = tTrue
+		if va.sym != nil {
+			symEq = mkEq(va.sym, vb.sym)
 		}
-		c.seen[key] = true
 		ca, oka := c.sa.store[va.cell]
 		cb, okb := c.sb.store[vb.cell]
 		if !oka || !okb {
 			return c.fail("fresh object without contents")
 		}
-		return c.eq(ca, cb)
+		if len(va.path) == 0 && len(vb.path) == 0 {
+			key := [2]*Cell{va.cell, vb.cell}
+			if c.seen[key] {
+				return symEq
+			}
+			c.seen[key] = true
+			return mkAnd(symEq, c.eq(ca, cb))
+		}
+		// pointers into the middle of two fresh objects (a local array element against a local
+		// variable): what matters is what they point to
+		if _, isA := ca.(*SymArr); isA {
+			return c.fail("pointer into a fresh symbolic array")
+		}
+		if _, isB := cb.(*SymArr); isB {
+			return c.fail("pointer into a fresh symbolic array")
+		}
+		subA, ok1 := getPathSafe(ca, va.path)
+		subB, ok2 := getPathSafe(cb, vb.path)
+		if !ok1 || !ok2 {
+			return c.fail("pointer outside its fresh object")
+		}
+		return mkAnd(symEq, c.eq(subA, subB))
 	case *SliceV:
 		vb, ok := b.(*SliceV)
 		if !ok {
@@ -659,6 +774,26 @@ func (c *eqCmp) eq(a, b Value) *Term {
 			}
 			if baseName0(va.fn) != baseName0(vb.fn) || len(va.bind) != len(vb.bind) {
 				return tFalse
+			}
+			if va.fn != vb.fn && va.fn.Parent() == nil {
+				// a changed function against its copy, used as a value (started, deferred, stored):
+				// the same value only if the two are equivalent (checked after this comparison)
+				if c.funcs == nil {
+					c.funcs = map[*ssa.Function]bool{}
+				}
+				c.funcs[va.fn] = true
+			}
+			if va.fn != vb.fn && va.fn.Parent() != nil {
+				// a closure of the changed function against the closure of its copy: the same
+				// value only if their bodies are equivalent too (checked after this comparison)
+				root := va.fn
+				for root.Parent() != nil {
+					root = root.Parent()
+				}
+				if c.closures == nil {
+					c.closures = map[string]bool{}
+				}
+				c.closures[strings.TrimPrefix(va.fn.Name(), root.Name())] = true
 			}
 			var cs []*Term
 			for i := range va.bind {
@@ -825,6 +960,12 @@ func (c *equivChecker) abstraction(fn *ssa.Function) (string, int) {
 	}
 	if _, inBase := c.base.decls[k]; !inBase {
 		return "", absNone // a helper the verified version does not have: inlined
+	}
+	if k == c.current || c.inprog[k] {
+		// a recursive call (direct, or through a function whose comparison is under way): by
+		// induction on the depth of the recursion the two versions agree on it, so it is the
+		// same unknown function of what it can see in both runs
+		return "call:" + k.String(), how
 	}
 	if !c.base.tainted[k] {
 		if c.simple(fn) {
